@@ -390,7 +390,7 @@ class Validator:
 GEN_OPTS = {"avoid": ("countLeadingZeros", "countTrailingZeros", "abs:u32"), "vec_select_cond": False,
             "safe_int_div": True, "ordered_int_clamp": True}
 
-GEN_QUICK, GEN_THOROUGH = 400, 1500
+GEN_QUICK, GEN_THOROUGH = 400, 1200
 
 
 def avoid_recorded_findings(prog):
